@@ -134,7 +134,7 @@ var Meta = map[string]PropMeta{
 	"C09": {
 		Level:       "exploration",
 		Technique:   "deterministic simulation: real client and daemon over the scheduled transport in pull, push and local arrangements; seeded generation of source/destination tree pairs with extraneous entries in every sort position; reference-model oracle on the final entry set; sender-disk fault (directory listing error) raises the I/O-error flag",
-		Rule:        "recursive sync of a directory's contents with --delete (control: without), destination holds 0..6 extraneous files/directories/symlinks/fifos per run at names sorting before, between and after the listed ones, nested, optionally an --exclude rule naming a destination entry. Oracle: listed entries never removed; without --delete or with the sender's I/O-error flag raised (simulated ReadDir failure) nothing removed; with --delete every extraneous entry not protected by an exclude rule is gone and every protected one is kept. Non-trivial = --delete with >= 2 extraneous entries",
+		Rule:        "recursive sync of a directory's contents with --delete (control: without), destination holds 0..6 extraneous files/directories/symlinks/fifos per run at names sorting before, between and after the listed ones, nested, optionally an --exclude rule naming a destination entry. Oracle: listed entries never removed; without --delete or with the sender's I/O-error flag raised (simulated ReadDir failure) nothing removed; with --delete every extraneous entry not protected by an exclude rule is gone and every protected one is kept. Non-trivial = --delete with >= 2 extraneous entries One scheduled run in six starts from a killed state (destination copied at a drawn scheduler step of an earlier non-dry sync with the same arguments: temporary files and half-made directories are part of the prior state; probes kill_states*).",
 		Assumptions: []string{"model of exclude-rule protection: an entry is protected iff it or a parent matches an exclude rule (rsync semantics without --delete-excluded)"},
 		Real:        realCommon, Stub: append([]string{"sender disk (I/O error runs): simfs"}, stubCommon...),
 		Quick:    q(6000, 35*time.Second),
@@ -143,7 +143,7 @@ var Meta = map[string]PropMeta{
 	"C10": {
 		Level:       "exploration",
 		Technique:   "deterministic simulation: real client and daemon in all arrangements with -n; snapshot invariant on the destination evaluated at scheduler steps and at the end; wire-history monitor decodes the sender's stream and requires it to consist of file list, index echoes and phase markers only",
-		Rule:        "source/destination pairs containing regular files, directories, symlinks, fifos, sockets and devices in every update situation (missing, different, same, wrong type), random option subsets plus -n/--dry-run (a third with --delete and extraneous entries), arrangements A1-A4. Oracle: full snapshot (names, types, content hash, mode, mtime ns, link target, rdev, owner) identical before/after and at every 8th scheduler step; session succeeds; sender stream carries no sum head, token or literal. Non-trivial = at least one file index was requested (echoed)",
+		Rule:        "source/destination pairs containing regular files, directories, symlinks, fifos, sockets and devices in every update situation (missing, different, same, wrong type), random option subsets plus -n/--dry-run (a third with --delete and extraneous entries), arrangements A1-A4. Oracle: full snapshot (names, types, content hash, mode, mtime ns, link target, rdev, owner) identical before/after and at every 8th scheduler step; session succeeds; sender stream carries no sum head, token or literal. Non-trivial = at least one file index was requested (echoed) One scheduled run in six starts from a killed state (destination copied at a drawn scheduler step of an earlier non-dry sync with the same arguments: temporary files and half-made directories are part of the prior state; probes kill_states*).",
 		Assumptions: []string{"A4: no wire tap (io.Pipe inside the code under test), snapshot oracle only"},
 		Real:        realCommon, Stub: stubCommon,
 		Quick:    q(6000, 35*time.Second),
